@@ -145,7 +145,7 @@ def walk(rng, universe, narrows, style, idprob):
     keys, fv = Keys(rng), Fv(rng)
     present = {}
     ops = []
-    pins = {"grow": 0.85, "mixed": 0.6, "churn": 0.5, "insonly": 1.0, "updown": 1.0}[style]
+    pins = {"grow": 0.85, "mixed": 0.6, "churn": 0.5, "sparse": 0.5, "insonly": 1.0, "updown": 1.0}[style]
     turn = rng.randint(narrows // 3, max(narrows // 3, 2 * narrows // 3)) if style == "updown" else None
     while len(ops) < narrows:
         if style != "insonly" and rng.random() < idprob:
@@ -162,17 +162,94 @@ def walk(rng, universe, narrows, style, idprob):
         if ins and (rng.random() < p or not rem):
             # prefer higher-dimensional candidates now and then, otherwise vertices dominate
             hi = [c for c in ins if dim[c] > 0]
-            c = rng.choice(hi) if hi and rng.random() < 0.75 else rng.choice(ins)
+            c = rng.choice(hi) if hi and rng.random() < (0.5 if style == "sparse" else 0.75) else rng.choice(ins)
             k = keys.fresh(c)
             bd = [present[f] for f in faces[c]]
             rng.shuffle(bd)
             present[c] = k
             ops.append(("I", k, dim[c], fv.next(), bd))
         elif rem:
-            c = rng.choice(rem)
+            lo = [c for c in rem if dim[c] == 0]
+            c = rng.choice(lo) if lo and style == "sparse" and rng.random() < 0.5 else rng.choice(rem)
             ops.append(("R", present.pop(c), fv.next()))
         else:
             break
+    return ops
+
+
+def walk_motifs(rng, nv, nsteps):
+    """forests whose history is made of two motifs plus noise: an edge that comes and goes followed by the departure of one of its
+    ends (the chains of the two ends exchange their pivots: column order and pivot order then disagree), and a path laid edge by
+    edge and taken away from its older end (an edge shared by two paired chains goes first: transposition of paired columns)"""
+    keys, fv = Keys(rng), Fv(rng)
+    V, E, ops = {}, {}, []
+
+    def ins_v():
+        cand = [v for v in range(nv) if v not in V]
+        if not cand:
+            return False
+        v = rng.choice(cand)
+        V[v] = keys.fresh(("v", v, len(ops)))
+        ops.append(("I", V[v], 0, fv.next(), []))
+        return True
+
+    def ins_e(a, b):
+        e = (min(a, b), max(a, b))
+        if e in E or a == b:
+            return False
+        E[e] = keys.fresh(("e", e, len(ops)))
+        bd = [V[a], V[b]]
+        rng.shuffle(bd)
+        ops.append(("I", E[e], 1, fv.next(), bd))
+        return True
+
+    def rem_e(e):
+        e = (min(e), max(e))
+        if e not in E:
+            return False
+        ops.append(("R", E.pop(e), fv.next()))
+        return True
+
+    def iso(v):
+        return not any(v in e for e in E)
+
+    def rem_v(v):
+        if v not in V or not iso(v):
+            return False
+        ops.append(("R", V.pop(v), fv.next()))
+        return True
+    for _ in range(rng.randint(3, nv)):
+        ins_v()
+    guard = 0
+    while len(ops) < nsteps and guard < 20 * nsteps:
+        guard += 1
+        r = rng.random()
+        vs = list(V)
+        if r < 0.3 and len(vs) >= 2:
+            x = rng.choice([v for v in vs if iso(v)] or vs)
+            y = rng.choice([v for v in vs if v != x])
+            if ins_e(x, y):
+                if rng.random() < 0.8:
+                    rem_e((x, y))
+                if rng.random() < 0.8:
+                    rem_v(x) or rem_v(y)
+        elif r < 0.6 and len(vs) >= 3:
+            k = rng.randint(3, min(4, len(vs)))
+            p = rng.sample(vs, k)
+            laid = [(p[i], p[i + 1]) for i in range(k - 1) if ins_e(p[i], p[i + 1])]
+            if rng.random() < 0.3:
+                laid.reverse()
+            for e in laid:
+                if rng.random() < 0.85:
+                    rem_e(e)
+        elif r < 0.75:
+            ins_v()
+        elif r < 0.85 and E:
+            rem_e(rng.choice(list(E)))
+        elif r < 0.95 and vs:
+            rem_v(rng.choice(vs))
+        elif len(vs) >= 2:
+            ins_e(*rng.sample(vs, 2))
     return ops
 
 
@@ -458,7 +535,11 @@ def generate(rng, tier):
             # their pivots and paired columns get transposed later
             nv = rng.choice([3, 4, 4, 5])
             u = unis.setdefault(("s", nv, 1), simplicial_universe(nv, 1))
-            ops, cls, style = walk(rng, u, rng.choice([20, 30, 40, 60]), "churn", 0), "simplicial", "graph-churn"
+            if rng.random() < 0.5:
+                ops, cls, style = walk(rng, u, rng.choice([20, 30, 40, 60]), "churn", 0), "simplicial", "graph-churn"
+            else:
+                # few cells at any time: isolated vertices and short paths, vertices removed as soon as they are free
+                ops, cls, style = walk(rng, u, rng.choice([12, 16, 24, 40]), "sparse", 0), "simplicial", "sparse-graph-churn"
         elif r < 0.55:
             nv = rng.choice([2, 3, 4, 4, 5, 5, 6, 6])
             md = rng.choice([1, 2, 2, 3, 3])
@@ -470,6 +551,8 @@ def generate(rng, tier):
             ops, cls = walk(rng, u, narrows, style, idprob), "cubical"
         else:
             ops, cls = gen_general(rng, narrows, style, idprob), "general"
+        if i % 6 == 5:
+            ops, cls, style = walk_motifs(rng, rng.choice([4, 5, 6, 6, 7]), rng.choice([30, 50, 50, 70])), "simplicial", "forest-motifs"
         if not ops:
             continue
         maxd = max([o[2] for o in ops if o[0] == "I"] + [0])
